@@ -1,6 +1,8 @@
 package main
 
 import (
+	"crypto/hmac"
+	"crypto/sha256"
 	"encoding/base64"
 	"encoding/json"
 	"errors"
@@ -76,7 +78,8 @@ func tokenVars(csrfOn, rich bool, method string) []string {
 		// base alphabet: for methods that are not state-changing the token is irrelevant; two classes show it is ignored
 		return []string{apimodel.TokNone, apimodel.TokOlder}
 	}
-	return []string{apimodel.TokNone, apimodel.TokFresh, apimodel.TokExpired, apimodel.TokGarbage, apimodel.TokBadSig, apimodel.TokTruncSig, apimodel.TokTampered, apimodel.TokOlder}
+	return []string{apimodel.TokNone, apimodel.TokFresh, apimodel.TokExpired, apimodel.TokGarbage, apimodel.TokBadSig, apimodel.TokTruncSig, apimodel.TokTampered, apimodel.TokOlder,
+		apimodel.TokForgedEmptyKey, apimodel.TokForgedZeroKey}
 }
 
 func hostVars(hdrOn, rich bool) []hostVar {
@@ -442,14 +445,15 @@ type c27Result struct {
 	FirstLayerOK  int64                 `json:"first_layer_ok"`
 	FirstLayerOff int64                 `json:"first_layer_off"`
 	Status        map[string]int64      `json:"status"`
-	Layer         map[string]int64      `json:"layer"`         // refusals per first failing layer (expected)
-	Classes       map[string]int64      `json:"classes"`       // per (failing-layer-set) class
-	ReachedRM     map[string]int64      `json:"reached_rm"`    // reached count per "METHOD path"
-	GatewayCalls  map[string]int64      `json:"gateway_calls"` // gateway method -> count
-	TokenIssues   int64                 `json:"token_issues"`  // GET /api/v1/csrf performed by the harness
-	Configs       int                   `json:"configs"`       // mux configurations executed
-	Singles       map[string]bool       `json:"singles"`       // layer:discriminator of single-layer bypasses
-	Multi         map[string]c27Failure `json:"multi"`         // joined discriminators -> example, for multi-layer bypasses
+	Layer         map[string]int64      `json:"layer"`              // refusals per first failing layer (expected)
+	Classes       map[string]int64      `json:"classes"`            // per (failing-layer-set) class
+	ReachedRM     map[string]int64      `json:"reached_rm"`         // reached count per "METHOD path"
+	GatewayCalls  map[string]int64      `json:"gateway_calls"`      // gateway method -> count
+	TokenIssues   int64                 `json:"token_issues"`       // GET /api/v1/csrf performed by the harness
+	BeforeIssue   int64                 `json:"before_first_issue"` // requests made before this process issued any token
+	Configs       int                   `json:"configs"`            // mux configurations executed
+	Singles       map[string]bool       `json:"singles"`            // layer:discriminator of single-layer bypasses
+	Multi         map[string]c27Failure `json:"multi"`              // joined discriminators -> example, for multi-layer bypasses
 	Failures      []c27Failure          `json:"failures"`
 	Samples       []c27Case             `json:"samples"`
 	StreamHash    uint64                `json:"stream_hash"`
@@ -596,6 +600,10 @@ func tokenValue(class string, t *c27Tokens) string {
 		return string(b)
 	case apimodel.TokTruncSig:
 		return strings.Split(t.fresh, ".")[0] + "."
+	case apimodel.TokForgedEmptyKey:
+		return forgedToken(nil)
+	case apimodel.TokForgedZeroKey:
+		return forgedToken(make([]byte, 64))
 	case apimodel.TokTampered:
 		// a payload with a far later expiry, carried under the fresh token's signature
 		parts := strings.Split(t.fresh, ".")
@@ -607,6 +615,59 @@ func tokenValue(class string, t *c27Tokens) string {
 		return base64.RawURLEncoding.EncodeToString([]byte(payload)) + "." + sig
 	}
 	return ""
+}
+
+// forgedToken is a token in the node's format that the CLIENT made: an unexpired payload under HMAC-SHA256 with a key the
+// client can guess.  Only a node whose secret is that key would take it.
+func forgedToken(key []byte) string {
+	payload := []byte(`{"Nonce":"AAAA","ExpiresAt":"2999-01-01T00:00:00Z"}`)
+	h := hmac.New(sha256.New, key)
+	h.Write(payload)
+	return base64.RawURLEncoding.EncodeToString(payload) + "." + base64.RawURLEncoding.EncodeToString(h.Sum(nil))
+}
+
+// beforeFirstIssue runs in a process that has not yet issued any token (every worker starts as one): all API sets on, token
+// checking on, and every state-changing method of every route with the token classes that exist without an issued token.
+func (e *c27Env) beforeFirstIssue() {
+	m := c27Mux{Mask: 1<<uint(len(e.g.APISets)) - 1, CSRF: true}
+	mux, mc := e.newMux(m)
+	vtime.Set(time.Date(2026, 1, 1, 0, 0, 0, 0, time.UTC))
+	var tok c27Tokens
+	sets := maskSets(e.g, m.Mask)
+	for ri := range e.g.Routes {
+		rt := &e.g.Routes[ri]
+		if rt.Path == "/api/v1/csrf" {
+			continue // would issue a token
+		}
+		cn := e.fx.canon[rt.Path]
+		for _, path := range probePaths(rt) {
+			for _, method := range []string{"POST", "PUT", "DELETE"} {
+				body, ctype := "", "application/json"
+				switch {
+				case rt.API == "v2":
+					if method != "DELETE" {
+						body = cn.json
+					}
+				case cn.json != "":
+					body = cn.json
+				default:
+					body, ctype = cn.form, "application/x-www-form-urlencoded"
+				}
+				for _, tk := range []string{apimodel.TokNone, apimodel.TokGarbage, apimodel.TokForgedEmptyKey, apimodel.TokForgedZeroKey} {
+					status, rbody, gwm, _ := e.serve(mux, method, path, cn.query, body, ctype, c27Host, c27Hdr{token: tokenValue(tk, &tok)})
+					reached := gwm != "" || ownResponse(rt.Path, true, status, rbody)
+					ex := e.g.Expect(rt, mc, apimodel.Request{Method: method, Token: tk, Host: c27Host, ContentType: ctype})
+					e.res.BeforeIssue++
+					if reached && !ex.Reach {
+						c := c27Case{Sets: sets, CSRF: true, Path: path, Method: method, Token: tk, Host: c27Host, HostC: "configured", OriginC: "none", Cred: "none",
+							CType: ctype, Status: status, Reached: reached, Gateway: gwm, ExpReach: ex.Reach, Failing: ex.Failing, ExpStat: ex.Statuses}
+						e.res.fail("access:reached-but-must-be-refused:csrf:"+tk+":"+method+":before-first-issue",
+							fmt.Sprintf("in a process that has not issued a token yet: %s %s with token class %s → status %d, reached", method, path, tk, status), c)
+					}
+				}
+			}
+		}
+	}
 }
 
 func (e *c27Env) newMux(m c27Mux) (*http.ServeMux, apimodel.Config) {
@@ -927,6 +988,7 @@ func c27RunShard(job c27Job) *c27Result {
 	}
 	plan := c27Plan(g, job.Thorough)
 	env := &c27Env{g: g, fx: newC27Fixture(), gw: &api.VerifGateway{Err: errStub}, res: res, h: fnv.New64a()}
+	env.beforeFirstIssue()
 	for n, pi := range job.Shard {
 		if pi < 0 || pi >= len(plan) {
 			res.Broken = "shard index out of plan"
@@ -1081,6 +1143,7 @@ func c27(r *engine.Run) {
 		tot.FirstLayerOK += res.FirstLayerOK
 		tot.FirstLayerOff += res.FirstLayerOff
 		tot.TokenIssues += res.TokenIssues
+		tot.BeforeIssue += res.BeforeIssue
 		tot.Configs += res.Configs
 		for k, v := range res.Status {
 			tot.Status[k] += v
@@ -1115,7 +1178,25 @@ func c27(r *engine.Run) {
 	sort.SliceStable(tot.Failures, func(i, j int) bool { return tot.Failures[i].Case.Gateway != "" && tot.Failures[j].Case.Gateway == "" })
 	for _, f := range tot.Failures {
 		f := f
-		r.Fail(engine.Failure{Sig: f.Sig, Detail: f.Detail, Case: f.Case, Repro: func() bool { return c27Replay(g, fx, f.Case) }})
+		repro := func() bool { return c27Replay(g, fx, f.Case) }
+		if strings.HasSuffix(f.Sig, ":before-first-issue") {
+			// needs a process that has issued no token: a fresh worker with an empty shard runs just that part
+			repro = func() bool {
+				job, _ := json.Marshal(c27Job{Thorough: r.Thorough()})
+				wr := engine.RunWorker(job, 4<<20, 300*time.Second, "c27")
+				res := newC27Result()
+				if wr.TimedOut || wr.Died || json.Unmarshal(wr.Stdout, res) != nil {
+					return false
+				}
+				for _, f2 := range res.Failures {
+					if f2.Sig == f.Sig {
+						return true
+					}
+				}
+				return false
+			}
+		}
+		r.Fail(engine.Failure{Sig: f.Sig, Detail: f.Detail, Case: f.Case, Repro: repro})
 	}
 	// multi-layer bypasses are consequences of single-layer ones when every component was itself seen alone
 	mk := []string{}
@@ -1194,11 +1275,12 @@ func c27(r *engine.Run) {
 		"dont_care":               tot.DontCare,
 		"mux_configurations":      tot.Configs,
 		"tokens_issued_by_node":   tot.TokenIssues,
-		"gateway_methods_called":  len(tot.GatewayCalls),
-		"gateway_methods_total":   api.VerifGatewayMethods,
-		"served_route_methods":    servedRM,
-		"multi_layer_bypasses":    map[string]int{"distinct": len(tot.Multi), "explained_by_single_layer_findings": explained},
-		"route_table":             map[string]interface{}{"golden_routes": len(g.Routes), "code_routes": len(code), "differences": tableDiffs, "source": src, "mux_patterns": len(pats), "readme_notes": g.ReadmeNotes},
+		"requests_before_the_first_token_issue_of_a_process": tot.BeforeIssue,
+		"gateway_methods_called":                             len(tot.GatewayCalls),
+		"gateway_methods_total":                              api.VerifGatewayMethods,
+		"served_route_methods":                               servedRM,
+		"multi_layer_bypasses":                               map[string]int{"distinct": len(tot.Multi), "explained_by_single_layer_findings": explained},
+		"route_table":                                        map[string]interface{}{"golden_routes": len(g.Routes), "code_routes": len(code), "differences": tableDiffs, "source": src, "mux_patterns": len(pats), "readme_notes": g.ReadmeNotes},
 		"alphabet": map[string]interface{}{"methods": len(c27Methods), "routes": len(g.Routes), "api_set_masks": len(plan) / 8,
 			"token_classes": len(tokenVars(true, true, "POST")), "hosts_base": len(hostVars(true, false)), "hosts_rich": len(hostVars(true, true)),
 			"origin_referer_base": len(originVars(true, false)), "origin_referer_rich": len(originVars(true, true)),
